@@ -855,6 +855,8 @@ func cacheMain(args []string) error {
 		return cacheRandom(args[1:])
 	case "replay":
 		return cacheReplay(args[1:])
+	case "conc":
+		return cacheConc(args[1:])
 	}
 	return fmt.Errorf("cache: unknown mode %q", args[0])
 }
